@@ -2885,6 +2885,7 @@ struct ZSTDv07_DCtx_s
     U32 rep[3];
     ZSTDv07_frameParams fParams;
     blockType_t bType;   /* used in ZSTDv07_decompressContinue(), to transfer blockType between header decoding and block decoding stages */
+    size_t rleSize;      /* same, for the regenerated size of an RLE block */
     ZSTDv07_dStage stage;
     U32 litEntropy;
     U32 fseEntropy;
@@ -3993,6 +3994,7 @@ size_t ZSTDv07_decompressContinue(ZSTDv07_DCtx* dctx, void* dst, size_t dstCapac
             } else {
                 dctx->expected = cBlockSize;
                 dctx->bType = bp.blockType;
+                dctx->rleSize = bp.origSize;
                 dctx->stage = ZSTDds_decompressBlock;
             }
             return 0;
@@ -4008,7 +4010,7 @@ size_t ZSTDv07_decompressContinue(ZSTDv07_DCtx* dctx, void* dst, size_t dstCapac
                 rSize = ZSTDv07_copyRawBlock(dst, dstCapacity, src, srcSize);
                 break;
             case bt_rle :
-                return ERROR(GENERIC);   /* not yet handled */
+                rSize = ZSTDv07_generateNxBytes(dst, dstCapacity, *(const BYTE*)src, dctx->rleSize);
                 break;
             case bt_end :   /* should never happen (filtered at phase 1) */
                 rSize = 0;
